@@ -73,6 +73,8 @@ class PHPArgs(argparse.Action):
     def __call__(self, parser, args, values, option_string=None):
         # now we setup the main parser for the formula generation command
         innerparser = CLIParser(prog=parser.prog,
+                                usage=parser.usage,
+                                description=parser.description,
                                 formatter_class=CLIHelpFormatter)
         innerparser.add_argument('B', action=ObtainBipartiteGraph)
 
